@@ -73,7 +73,9 @@ def main():
                 print(sid, "check:", r.get("exit"), r.get("caught"), r.get("wall_s"), flush=True)
                 meta["check"] = r
             notes = os.path.join(CAND, pid, "notes.md")
-            meta["needs"] = "see notes in seeded/_candidates/%s/notes.md" % pid
+            needs = json.load(open(os.path.join(ROOT, "seeded", "needs.json")))
+            meta["breaks_property"] = pid
+            meta["needs_to_manifest"] = needs.get(sid, "see seeded/_candidates/%s/notes.md" % pid)
             meta["ran"] = [f"git worktree + git apply; pytest (expects {BASE_PASS} passed); demo with/without",
                            f"git -C /repo apply patch.diff; ./check {pid} --tier {tier}; git -C /repo checkout -- ."]
             json.dump(meta, open(meta_p, "w"), indent=1)
